@@ -64,6 +64,35 @@ let () =
                       (incr mism; Printf.printf "PROPFAIL %s // naive prefix sum at %s is %d\n" line (string_of_zlist i) (int_of_z nv)))
                   (all_indices d)
             | "CONV" -> incr total
+            | "STO" ->
+              (* replay the storage script with the model: slot 0 = t (k mod 120), slot 1 = (7k+3) mod 100, same dims *)
+              let n = int_of_z (size d) in
+              let c0 = List.init n (fun k -> z_of_int (k mod 120)) and c1 = List.init n (fun k -> z_of_int ((k * 7 + 3) mod 100)) in
+              let s0 = { s_kind = KOwn; s_buf = nat_of_int 0; s_off = z_of_int 0; s_dims = d }
+              and s1 = { s_kind = KOwn; s_buf = nat_of_int 1; s_off = z_of_int 0; s_dims = d } in
+              let ops = List.map (fun t ->
+                  match String.split_on_char ' ' (trim t) with
+                  | ["O"; a; b] -> SOwnOf (nat_of_int (int_of_string a), nat_of_int (int_of_string b))
+                  | ["A"; a; b] -> SOwnAssign (nat_of_int (int_of_string a), nat_of_int (int_of_string b))
+                  | ["M"; a; b; m] -> SMapOf (nat_of_int (int_of_string a), nat_of_int (int_of_string b), m = "1")
+                  | ["S"; a; b; m; x; y] -> SSlice (nat_of_int (int_of_string a), nat_of_int (int_of_string b), m = "1", z_of_int (int_of_string x), z_of_int (int_of_string y))
+                  | ["W"; a; b] -> SMapAssign (nat_of_int (int_of_string a), nat_of_int (int_of_string b))
+                  | _ -> failwith ("bad storage op " ^ t)) (String.split_on_char ';' args) in
+              incr total;
+              (match srun ([Some c0; Some c1], [s0; s1; s0; s0; s0]) ops with
+               | None -> report line "the model rejects the script"
+               | Some st ->
+                 let dumped = Array.of_list (sdump st) in
+                 List.iter (fun tok ->
+                     match String.index_opt tok ':' with
+                     | None -> ()
+                     | Some c ->
+                       let slot = int_of_string (String.sub tok 0 c) and want = String.sub tok (c + 1) (String.length tok - c - 1) in
+                       let got = (match dumped.(slot) with
+                           | None -> "dangling"
+                           | Some l -> "[" ^ String.concat "," (List.map (fun z -> string_of_int (int_of_z z)) l) ^ "]") in
+                       if got <> want then report line (Printf.sprintf "slot %d = %s" slot got))
+                   (List.filter (fun t -> t <> "") (String.split_on_char ' ' (trim rhs))))
             | _ -> ())
          | _ -> ())
     done
